@@ -201,8 +201,11 @@ def template_prepare(tmp, variant):
     os.makedirs(d, exist_ok=True)
     par = os.path.join(d, 'in.par')
     with open(par, 'w') as f:
-        f.write(PAR.format(object=variant['object'], method=variant['method'],
-                           run2d=variant.get('run2d', 'v5_7_0'), run1d=variant.get('run1d', 'v5_7_2')))
+        text = PAR.format(object=variant['object'], method=variant['method'],
+                          run2d=variant.get('run2d', 'v5_7_0'), run1d=variant.get('run1d', 'v5_7_2'))
+        # optional keywords the source reads (harness: c20.optional_keywords): given a value, before the table
+        extra = ''.join('%s /optional/%s\n' % (k, k) for k in variant.get('extra_keys', []))
+        f.write(extra + text)
     dump = os.path.join(d, 'dump.pkl')
     if os.path.exists(dump):
         os.remove(dump)
